@@ -25,6 +25,9 @@ def answer (kv : KV) : String :=
     match inv.bind evalArr with
     | some o => if o.const then "accept" else "reject"
     | none => "unknown"
+  | "noncopy" =>
+    -- what `[x; n]` accepts: a const-item operand of any type, or any value for n ≤ 1
+    if kv.getD "operand" "" = "constitem" || kv.natD "n" 2 ≤ 1 then "accept" else "reject"
   | "hygiene" =>
     -- an element expression that is the caller's own item / variable `name`: captured by the
     -- expansion iff the expansion defines an item of that name
